@@ -8,13 +8,14 @@ from ..machine import wellformed
 PROPERTY = "C01"
 LEVEL = "exploration"
 RULE = (
-    "Hypothesis integer arrays with ndim 1 or 2 and N >= 0 (incl. (0,), (0, C), (N, 0)), values from palettes that "
+    "Hypothesis integer arrays with ndim 1 or 2 and N >= 0 (incl. (0,), (0, C), (N, 0); a third of the 2-D ones with "
+    "constant columns), values from palettes that "
     "straddle every dtype rung ({0..5}, {-3..3}, {254,255,256}, {65535,65536}, {2^31-1, 2^31, 2^31+1}, {-2^31-1}, "
     "{2^62, -2^62}, mixed) in three shape classes built by construction so that both construction strategies run: "
     "'small' (< 5 distinct values), 'dense-many' (>= 5 values, many uncommon cells -> per-value numpy.where) and "
     "'sparse-many' (5..12 distinct values, 80..400 rows, so few uncommon cells that the per-row scan is selected). "
     "Options: common omitted / a value of the array / a value absent from it; counts omitted / exact dict; mapping "
-    "omitted / injective / many-to-one (several values onto the common one, all values onto one); on the way back "
+    "omitted / injective / a permutation of the array's own codes / many-to-one (several values onto the common one, all values onto one); on the way back "
     "the default dtype, an explicit int64, an explicit fitted dtype, or a value mapping. Oracle: round trip equals "
     "the (mapped) input element for element and in shape; the produced index is well-formed (C07 predicate) and its "
     "dense content (independent reader) equals the mapped input; any exception is a violation (empty input with "
@@ -73,6 +74,12 @@ def cases(draw, tier):
         skew = draw(st.sampled_from([0, 1, 4]))
         raw = draw(st.lists(st.integers(0, k * (1 + skew) - 1), min_size=size, max_size=size))
         values = [vals[x] if x < k else vals[0] for x in raw]
+        if c is not None and draw(st.integers(0, 2)) == 0:
+            # constant columns (a sub-variable nobody / everybody selected): every row holds one value there
+            for col in draw(st.lists(st.integers(0, c - 1), min_size=1, max_size=c, unique=True)):
+                v = draw(st.sampled_from(vals))
+                for r in range(n):
+                    values[r * c + col] = v
         fill, cells = None, None
     case = {"shape": shape, "values": values, "fill": fill, "cells": cells, "cls": cls}
     present = sorted(set(flat_values(case)))
@@ -85,7 +92,7 @@ def cases(draw, tier):
     else:
         case["common"] = None
     case["counts"] = draw(st.booleans())
-    mk = draw(st.sampled_from(["none", "none", "injective", "many", "onto_common", "all_onto_one"]))
+    mk = draw(st.sampled_from(["none", "none", "injective", "many", "onto_common", "all_onto_one", "permute"]))
     keys = sorted(set(present) | ({case["common"]} if case["common"] is not None else set()))
     if mk == "none" or (not keys):
         case["mapping"] = None
@@ -94,6 +101,9 @@ def cases(draw, tier):
         if mk == "injective":
             t = draw(st.permutations(targets))[: len(keys)]
             m = list(zip(keys, t))
+        elif mk == "permute":
+            # a recode within the same code set (swap / rotation): raw and mapped codes share one domain
+            m = list(zip(keys, draw(st.permutations(keys))))
         elif mk == "all_onto_one":
             t = draw(st.sampled_from(targets))
             m = [(k, t) for k in keys]
